@@ -91,27 +91,29 @@ structure Tally where
 
 def incr {κ} [DecidableEq κ] (m : GoMap κ Nat) (k : κ) : GoMap κ Nat := m.set k ((m.get? k).getD 0 + 1)
 
+/-- the update-vote loop of one observation -/
+def addUpdates (env : Env) (t : Tally) (updates : GoMap Nat ChanDef) : Tally :=
+  updates.foldl (fun (t : Tally) e =>
+    let h := env.hashOf e.1 e.2
+    { t with updVotes := incr t.updVotes h, updDefs := t.updDefs.set h (e.1, e.2) }) t
+
+/-- the part of the loop body after the attestation check: count this observation -/
+def tallyAdd (env : Env) (t : Tally) (o : Obs) : Tally :=
+  let t := if o.shouldRetire then { t with retireVotes := t.retireVotes + 1 } else t
+  let t := { t with tss := t.tss ++ [o.ts] }
+  let t := { t with rmVotes := o.removes.foldl incr t.rmVotes }
+  let t := addUpdates env t o.updates
+  { t with streamObs := o.values.foldl (fun m e => m.set e.1 ((m.get? e.1).getD [] ++ [some e.2])) t.streamObs }
+
 /-- one iteration of the loop in `decodeObservations` for a successfully decoded observation -/
 def tallyStep (env : Env) (cfg : Cfg) (t : Tally) (o : Obs) : GoRes Tally :=
   -- attestation: a single valid retirement report is enough
-  let attest : GoRes (Option Tally) :=
-    if o.attested.length != 0 && t.validRR.isNone then
-      if !cfg.hasPred then .panic     -- `*p.PredecessorConfigDigest` with a nil pointer
-      else match env.check o.attested with
-        | none => .ok none            -- invalid attestation: whole observation ignored
-        | some rr => .ok (some { t with validRR := some rr })
-    else .ok (some t)
-  attest.bind fun
-    | none => .ok t
-    | some t =>
-      let t := if o.shouldRetire then { t with retireVotes := t.retireVotes + 1 } else t
-      let t := { t with tss := t.tss ++ [o.ts] }
-      let t := { t with rmVotes := o.removes.foldl incr t.rmVotes }
-      let t := o.updates.foldl (fun (t : Tally) e =>
-        let h := env.hashOf e.1 e.2
-        { t with updVotes := incr t.updVotes h, updDefs := t.updDefs.set h (e.1, e.2) }) t
-      let t := { t with streamObs := o.values.foldl (fun m e => m.set e.1 ((m.get? e.1).getD [] ++ [some e.2])) t.streamObs }
-      .ok t
+  if o.attested.length != 0 && t.validRR.isNone then
+    if !cfg.hasPred then .panic     -- `*p.PredecessorConfigDigest` with a nil pointer
+    else match env.check o.attested with
+      | none => .ok t               -- invalid attestation: whole observation ignored
+      | some rr => .ok (tallyAdd env { t with validRR := some rr } o)
+  else .ok (tallyAdd env t o)
 
 def tally (env : Env) (cfg : Cfg) (obs : List Obs) : GoRes Tally :=
   obs.foldl (fun acc o => acc.bind (fun t => tallyStep env cfg t o)) (.ok {})
@@ -177,6 +179,37 @@ def aggregateAll (cfg : Cfg) (prev : Outcome) (streamObs : GoMap Nat (List (Opti
   defs.foldl (fun acc e =>
     e.2.streams.foldl (fun acc s => acc.bind fun aggs => aggregateOne cfg prev streamObs aggs s.sid s.agg) acc) (.ok [])
 
+/-- promotion: previous stage is staging and some observation carried a verified attestation -/
+def promotedBy (prev : Outcome) (t : Tally) : Bool := prev.stage == stageStaging && t.validRR.isSome
+
+/-- the `LifeCycleStage` section -/
+def stageOf (cfg : Cfg) (prev : Outcome) (t : Tally) : String :=
+  let stage0 := if promotedBy prev t then stageProduction else prev.stage
+  if stage0 == stageProduction && t.retireVotes > cfg.f then stageRetired else stage0
+
+/-- removal loop of the `ChannelDefinitions` section (votes discarded when retired) -/
+def removalsOf (cfg : Cfg) (σ : Sched) (stage : String) (prev : Outcome) (t : Tally) : List Nat × GoMap Nat ChanDef :=
+  applyRemovals cfg (σ.rmVotes (if stage == stageRetired then [] else t.rmVotes)) prev.defs
+
+/-- the `ChannelDefinitions` section -/
+def defsOf (env : Env) (cfg : Cfg) (σ : Sched) (stage : String) (prev : Outcome) (t : Tally) : GoMap Nat ChanDef :=
+  applyUpdates env cfg t.updVotes
+    ((σ.updDefs (if stage == stageRetired then [] else t.updDefs)).mergeSort candLe)
+    (removalsOf cfg σ stage prev t).2
+
+/-- the `ValidAfterNanoseconds` section.  On promotion the retirement report's map is adopted; a
+    nil map (no entries: what decoding a retirement report without entries yields) falls through
+    to the carry-forward branch. -/
+def va0Of (cfg : Cfg) (σ : Sched) (prev : Outcome) (t : Tally) : GoMap Nat Nat :=
+  match (if promotedBy prev t then t.validRR else none) with
+  | some rr => if rr.va.isEmpty then carryValidAfter cfg prev (σ.prevVA prev.va) else rr.va
+  | none => carryValidAfter cfg prev (σ.prevVA prev.va)
+
+def vaOf (cfg : Cfg) (σ : Sched) (prev : Outcome) (t : Tally) (ts : Nat) (defs : GoMap Nat ChanDef)
+    (removed : List Nat) : GoMap Nat Nat :=
+  let va1 := fillValidAfter ts (σ.defsVA defs) (va0Of cfg σ prev t)
+  removed.foldl (fun m id => m.erase id) va1
+
 /-- `Plugin.outcome` for `SeqNr > 1`, on the decoded previous outcome and the decoded
     observations (observations that fail to decode are simply absent from `obs`; `nAos` is the
     length of the attributed-observation list including those). -/
@@ -186,26 +219,9 @@ def outcome (env : Env) (cfg : Cfg) (σ : Sched) (nAos : Nat) (prev : Outcome) (
   (tally env cfg obs).bind fun t =>
   if t.tss.length == 0 then .err "no-valid-observations" else
   let ts := medianTimestamp t.tss
-  -- LifeCycleStage
-  let promoted := prev.stage == stageStaging && t.validRR.isSome
-  let stage0 := if promoted then stageProduction else prev.stage
-  let stage := if stage0 == stageProduction && t.retireVotes > cfg.f then stageRetired else stage0
-  -- ChannelDefinitions
-  let (rmVotes, updDefs) : GoMap Nat Nat × GoMap Hash (Nat × ChanDef) :=
-    if stage == stageRetired then ([], []) else (t.rmVotes, t.updDefs)
-  let (removed, defs1) := applyRemovals cfg (σ.rmVotes rmVotes) prev.defs
-  let cands := (σ.updDefs updDefs).mergeSort candLe
-  let defs := applyUpdates env cfg t.updVotes cands defs1
-  -- ValidAfterNanoseconds
-  -- on promotion the retirement report's map is adopted; a nil map (no entries: what decoding a
-  -- retirement report without entries yields) falls through to the carry-forward branch
-  let va0 : GoMap Nat Nat :=
-    match (if promoted then t.validRR else none) with
-    | some rr => if rr.va.isEmpty then carryValidAfter cfg prev (σ.prevVA prev.va) else rr.va
-    | none => carryValidAfter cfg prev (σ.prevVA prev.va)
-  let va1 := fillValidAfter ts (σ.defsVA defs) va0
-  let va := removed.foldl (fun m id => m.erase id) va1
-  -- StreamAggregates
+  let stage := stageOf cfg prev t
+  let defs := defsOf env cfg σ stage prev t
+  let va := vaOf cfg σ prev t ts defs (removalsOf cfg σ stage prev t).1
   (aggregateAll cfg prev t.streamObs (σ.defsAgg defs)).bind fun aggs =>
   .ok { stage := stage, ts := ts, defs := defs, va := va, aggs := aggs }
 
@@ -235,12 +251,25 @@ inductive ReportOut where
   | channel (r : Report) (format : Nat) (stage : String)
   deriving Repr, DecidableEq
 
+/-- the id of a definition entry if the channel is reportable -/
+def reportableId (cfg : Cfg) (o : Outcome) (e : Nat × ChanDef) : Option Nat :=
+  match isReportable o e.1 cfg.version cfg.minInterval with
+  | none => some e.1
+  | some _ => none
+
 /-- `Outcome.ReportableChannels` (reportable ids, ascending) -/
 def reportableChannels (σ : Sched) (cfg : Cfg) (o : Outcome) : List Nat :=
-  ((σ.defsRep o.defs).filterMap fun e =>
-    match isReportable o e.1 cfg.version cfg.minInterval with
-    | none => some e.1
-    | some _ => none).mergeSort (fun a b => decide (a ≤ b))
+  ((σ.defsRep o.defs).filterMap (reportableId cfg o)).mergeSort (fun a b => decide (a ≤ b))
+
+/-- the report built for one reportable channel (`none` when the codec is missing or fails) -/
+def channelReport (cfg : Cfg) (encodes : Report → Nat → Bool) (seqNr : Nat) (o : Outcome) (cid : Nat) : Option ReportOut :=
+  match o.defs.get? cid with
+  | none => none
+  | some cd =>
+    let values := cd.streams.map fun s => o.aggs.get? (s.sid, s.agg)
+    let r : Report := { seqNr := seqNr, channelID := cid, validAfter := (o.va.get? cid).getD 0,
+                        obsTs := o.ts, values := values, specimen := o.stage != stageProduction }
+    if encodes r cd.format then some (.channel r cd.format o.stage) else none
 
 /-- `Plugin.reports` on the decoded outcome.  `encodes r format` says whether the report codec for
     `format` exists and its `Encode` succeeds (a failing codec just skips the report). -/
@@ -249,15 +278,7 @@ def reports (cfg : Cfg) (σ : Sched) (encodes : Report → Nat → Bool) (seqNr 
   if seqNr ≤ 1 then [] else
   let retire : List ReportOut :=
     if o.stage == stageRetired then [.retirement { version := cfg.version, va := o.va }] else []
-  let chans := (reportableChannels σ cfg o).filterMap fun cid =>
-    match o.defs.get? cid with
-    | none => none
-    | some cd =>
-      let values := cd.streams.map fun s => o.aggs.get? (s.sid, s.agg)
-      let r : Report := { seqNr := seqNr, channelID := cid, validAfter := (o.va.get? cid).getD 0,
-                          obsTs := o.ts, values := values, specimen := o.stage != stageProduction }
-      if encodes r cd.format then some (.channel r cd.format o.stage) else none
-  retire ++ chans
+  retire ++ (reportableChannels σ cfg o).filterMap (channelReport cfg encodes seqNr o)
 
 /-! ## VerifyChannelDefinitions, observation() votes -/
 
